@@ -43,6 +43,9 @@ pub struct CompRun {
     pub done: bool,
     /// (input bytes supplied so far, output bytes emitted so far, flush kind) at qualifying flush points (C12)
     pub flush_points: Vec<(usize, usize, u8)>,
+    /// per call (buffer sink): `outLen:flush:status:cout:blocks` with blocks = `size.local.ret.kind` joined by `,`
+    /// taken from the hook trace (flush_block events); input of the staging-model correspondence (op STG)
+    pub stg: Vec<String>,
 }
 
 #[derive(Clone, Copy, PartialEq)]
@@ -53,7 +56,8 @@ pub struct SchedOpts { pub sink: Sink, pub flush_p: usize, pub max_calls: usize,
 /// Run one generated schedule on a fresh compressor. Every random choice comes from `rng`.
 pub fn run_schedule(rng: &mut Rng, cfg: &Cfg, data: &[u8], o: &SchedOpts) -> CompRun {
     let mut c = cfg.make();
-    let mut run = CompRun { out: vec![], calls: vec![], problems: vec![], done: false, flush_points: vec![] };
+    let mut run = CompRun { out: vec![], calls: vec![], problems: vec![], done: false, flush_points: vec![], stg: vec![] };
+    let _ = c.verif_take_trace();
     let mut pos = 0usize;
     let mut finishing = false;
     let mut prev_had_space = true;
@@ -77,6 +81,11 @@ pub fn run_schedule(rng: &mut Rng, cfg: &Cfg, data: &[u8], o: &SchedOpts) -> Com
         }));
         let (st, cin, cout) = match r { Ok(x) => x, Err(_) => { run.problems.push(("panic".into(), format!("panic in compress call #{} (chunk {} out {} flush {})", run.calls.len(), chunk, out_len, flush))); return run; } };
         run.calls.push(CallRec { chunk, out: out_len, flush, status: st as i32, cin, cout });
+        if o.sink == Sink::Buf && run.stg.len() < 4000 {
+            let evs = c.verif_take_trace();
+            let blocks: Vec<String> = evs.iter().filter(|e| e[0] == 1).map(|e| format!("{}.{}.{}.{}", e[3], e[4], e[6] as i64, e[1])).collect();
+            run.stg.push(format!("{}:{}:{}:{}:{}", out_len, flush, st as i32, cout, if blocks.is_empty() { "-".to_string() } else { blocks.join(",") }));
+        } else { let _ = c.verif_take_trace(); }
         if cin > chunk { run.problems.push(("counts".into(), format!("call #{} consumed {} > offered {}", run.calls.len() - 1, cin, chunk))); return run; }
         if cout > out_len { run.problems.push(("counts".into(), format!("call #{} wrote {} > space {}", run.calls.len() - 1, cout, out_len))); return run; }
         if o.sink == Sink::Buf { run.out.extend_from_slice(&outbuf[..cout]); } else { run.out.extend_from_slice(&cb_bytes); }
